@@ -49,6 +49,18 @@ func c02One(ctx *vh.Ctx, c *c02Case) error {
 		return err
 	}
 	gcase.NormalizeModel(c.G, &model)
+	// the hypothesis of the run-level theorems (dag_at_most_once) must hold for every graph
+	// eino compiles in this mode; otherwise the theorem does not speak about this run
+	var hyp struct {
+		WF *bool `json:"wf"`
+	}
+	_ = json.Unmarshal(raw, &hyp)
+	if hyp.WF == nil || !*hyp.WF {
+		ctx.Res.Dist("wf-hypothesis=false")
+		ctx.Res.Disagree(vh.Disagreement{Signature: "C02:wf-hypothesis", What: "eino compiled and ran this all-predecessor graph, but the model's compiled runner does not satisfy DagWF (distinct keys, declared predecessors, acyclic) — the hypothesis of dag_at_most_once", Case: c, Model: model, Impl: impl})
+		return nil
+	}
+	ctx.Res.Dist("wf-hypothesis=true")
 	if impl.Result.Err != nil {
 		ctx.Res.Dist("result=" + impl.Result.Err.C)
 	} else {
